@@ -5,7 +5,7 @@ Per-call time limits are 30 s: the code under test has no loops, the limit only 
 exception handler turned into a 500 response.)
 """
 PROP = 'C20'
-LEAN_MODULES = ['FalconModel.Cors', 'FalconModel.CorsProofs', 'FalconModel.CorsConfig', 'FalconModel.CorsConfigProofs',
+LEAN_MODULES = ['FalconModel.Cors', 'FalconModel.CorsProofs', 'FalconModel.CorsConfig', 'FalconModel.CorsConfigProofs', 'FalconModel.CorsCall',
                 'FalconModel.Pipeline', 'FalconModel.PipelineProofs', 'FalconModel.PipelineSpec']
 DRIVERS = ['crdriver']
 THEOREMS = [
@@ -40,6 +40,9 @@ THEOREMS = [
     'Cg.cors_response_dependent_count', 'Cg.cors_process_response_independent', 'Cg.cors_process_response_dependent',
     'Cg.cors_enable_process_response', 'Cg.req_succeeded_by_target', 'Cg.req_failed_in_middleware',
     'Cg.req_failed_in_resource_middleware',
+    # --- Cg: the call CORSMiddleware(*positional, **keyword) (argument binding of the signature, then __init__) ---------------------
+    'Cg.bindArgs_split', 'Cg.bindArgs_positional_order', 'Cg.bindArgs_two_positional', 'Cg.bindArgs_defaults', 'Cg.construct_defaults',
+    'Cg.construct_star_star', 'Cg.construct_split',
 ]
 STATEMENTS = {
     'Co.noOriginF_untouched': 'a request without Origin leaves the whole response header map unchanged, for every configuration, pre-existing headers and outcome',
@@ -85,6 +88,10 @@ STATEMENTS = {
     'Cg.cors_response_dependent_count': 'dependent mode: it is called once, or not at all when an earlier process_request raised',
     'Cg.cors_enable_process_response': 'for an app built with cors_enable=True over any caller middleware, any routing outcome and responder behaviour: the CORS process_response call (index = number of caller components) is in the call trace with the documented req_succeeded - always in independent mode, in dependent mode unless a caller process_request raised',
     'Cg.req_succeeded_by_target': 'when no process_request / process_resource raises or completes: resource is set iff a route matched; req_succeeded iff the target is a routed responder or a sink / static route and that responder did not raise (404 / 405: False)',
+    'Cg.bindArgs_split': 'passing the first k (0..3) of the three settings positionally and the others by keyword binds allow_origins, expose_headers, allow_credentials to the same values for every k: the positional order is (allow_origins, expose_headers, allow_credentials)',
+    'Cg.construct_split': 'the calling convention is irrelevant: every positional / keyword split constructs the configuration (or raises the error) of the all-keyword call',
+    'Cg.construct_star_star': 'CORSMiddleware("*", "*") is every origin + expose "*" with NO credentials configured',
+    'Cg.construct_defaults': 'CORSMiddleware() - what cors_enable=True builds - allows every origin, exposes nothing and configures no credentials',
     'Cg.req_failed_in_middleware': 'a request rejected by a process_request reaches process_response with resource None and req_succeeded False',
 }
 TRUSTED = [
@@ -96,25 +103,36 @@ ASSUMPTIONS = [
     'the wildcard rule speaks about credentials granted by the middleware: a responder that itself pre-sets Access-Control-Allow-Credentials or -Origin is left alone (stated explicitly in DESIGN.md C20)',
     '"withdrawn otherwise" is read as: a successful OPTIONS exchange with Access-Control-Request-Method whose response advertises no Allow (the reading under which F12 was found); a failed exchange keeps the origin grant',
     'constructor arguments are None, a str, or an iterable of str (the documented types); an iterable is modelled by the list of items it yields, frozenset() by a duplicate-free list - every later use is a membership test (Cg.has_frozenset)',
+    'a positional constructor call means what the published signature CORSMiddleware(allow_origins=\'*\', expose_headers=None, allow_credentials=None) says; the oracle has this order written down',
+    'a successful exchange is one in which nothing raised before the CORS process_response ran (req_succeeded as documented: "True if no exceptions were raised while the framework processed and routed the request"); raising HTTPStatus - of any status - is raising, returning with an error status is not',
     'in the wiring model a static route is a sink-shaped target (responder found in _sink_and_static_routes, resource None); other middleware components are modelled by what each of their methods does (return / complete / raise) as in the C03 model Pl.run',
 ]
 RULE = ('(0) constructor: allow_origins / expose_headers / allow_credentials drawn independently from None, the bare "*", a single string, and list / tuple / set / frozenset / generator / dict-keys '
-        'of 0-4 strings with repetitions (universe with look-alikes: a prefix pair http://a / http://a.example, case variant, trailing slash, empty string; "*" inserted into 12 % of the iterables): the real '
-        'CORSMiddleware(...) is built and its normalised attributes or its error are compared with Cg.normalise; every accepted object is probed through the real process_response(_async) with the configured '
-        'strings and their proper substrings, superstrings and case variants. (0b) wiring: real falcon.App / falcon.asgi.App(cors_enable on/off, independent on/off, middleware = None / bare component / list / '
+        'of 0-4 strings with repetitions (universe with look-alikes: a prefix pair http://a / http://a.example, case variant, trailing slash, empty string; "*" inserted into 12 % of the iterables; values legal '
+        'for several parameters - the wildcard, origins as exposed-header names, header names as origins - so that a setting bound to the wrong parameter is visible). CALLING CONVENTION: the first k = 0..3 settings '
+        'are passed positionally in the documented order (allow_origins, expose_headers, allow_credentials - written down in the check, not read from the tree), the others by keyword in random order or not at all '
+        '(then the documented default is meant); CORSMiddleware() and App(cors_enable=True) are the call without arguments; 2 % malformed calls (fourth positional, setting bound twice). The object is used directly or '
+        'installed through App(middleware=[mw] / mw / (mw,) / [other, mw]), add_middleware(mw / [mw]) of falcon.App or falcon.asgi.App. The real call is compared with Cg.construct (Cg.bindArgs, Cg.normalise: attributes or '
+        'error); every accepted object is probed - through the real process_response(_async), or with GET requests through the app it was installed in - with the strings of all three settings and their proper substrings, '
+        'superstrings and case variants, and judged by the documented reading of the call. Levels (1) and (2) build their middleware with the same random calling convention. (0b) wiring: real falcon.App / falcon.asgi.App(cors_enable on/off, independent on/off, middleware = None / bare component / list / '
         'tuple / generator of recording components and CORSMiddleware subclass instances) followed by 0-3 add_middleware calls; one clean request gives the stack, one planned request (routed / 405 / sink / static / '
-        'unrouted, responder returning or raising, one process_request raising, preflight or not) gives the process_response calls with their (resource, req_succeeded); the framework-built CORSMiddleware is observed '
-        'through a logging Response type. (1) unit level: random configurations over the origin universe {http://a, http://b, http://c} (allow_origins: *, str, list/tuple/set/frozenset/generator; allow_credentials: None, *, str, iterables; '
+        'unrouted, preflight or not; ENDING: the responder returns or raises, and 0-2 of process_request / process_resource / process_response of the other components raise - what is raised is HTTPError, HTTPError carrying Allow, '
+        'a plain exception with a registered handler, or HTTPStatus 200 / 204 / 401 / 503 with or without an Allow header; the model sees all of them as "raise") gives the process_response calls with their (resource, req_succeeded); '
+        'the framework-built CORSMiddleware is observed through a logging Response type and must patch the preflight iff nothing raised before its process_response. (1) unit level: random configurations over the origin universe {http://a, http://b, http://c} (allow_origins: *, str, list/tuple/set/frozenset/generator; allow_credentials: None, *, str, iterables; '
         'expose_headers: None, "", str, list) x request views (Origin absent / allowed / disallowed / case variant / empty / look-alike; any method; Access-Control-Request-Method/-Headers absent, empty, set) x '
         'random pre-existing response headers (any subset of the six grant headers, Allow and other headers, random name case) x req_succeeded: the real CORSMiddleware.process_response / '
         'process_response_async is called on real falcon Request/Response objects of both stacks and compared with the model. '
         '(2) full stack: real falcon.App / falcon.asgi.App with the middleware alone, before/after/between other middleware (one of which may fail in process_request), independent_middleware on/off, cors_enable=True; '
-        'targets: routed resource (auto-OPTIONS / custom on_options with and without Allow), sinks with/without Allow, static route, unrouted; responders that pre-set CORS headers and/or fail '
-        '(HTTPError, HTTPError carrying Allow, unhandled exception); each request also runs against a twin app without the CORS middleware; every process_response call observed inside the app is also fed to the model. '
+        'targets: routed resource (auto-OPTIONS / custom on_options with and without Allow / custom on_options behind before+after hooks), sinks with/without Allow, static route, unrouted; responders that pre-set CORS headers. '
+        'HOW THE EXCHANGE ENDS is an input: in 55 % of the requests one (8 %: two) of the stages responder / before hook / after hook / process_request, process_resource, process_response of a component before or after the CORS one '
+        'ends by raising HTTPStatus (200, 204, 302, 401, 503; with an Allow header, without, or after setting Allow on the response itself), HTTPError (400, 405 carrying Allow, 401/429/503 with or without Allow) or a plain exception whose '
+        'registered handler answers 500 / sets Allow / raises HTTPStatus 204 with Allow itself; a responder may also RETURN after choosing a status (200, 202, 204, 503). The oracle counts the exchange as successful iff nothing raised '
+        'before the CORS process_response ran (every raise of a harness stage is recorded at the raise; the framework\'s own 404 / 405 show as an error status where no harness responder ran) - the status code plays no role; each request also runs against a twin app without the CORS middleware; every process_response call observed inside the app is also fed to the model. '
         'non-trivial = request carries an Origin; distinct = distinct (level, stack, configuration, arrangement, request, plan)')
 PARTIAL = ('Modelled and proved: process_response (Co), CORSMiddleware.__init__ (Cg.normalise) and the cors_enable wiring of App.__init__ / add_middleware with the CORS component inside the C03 call '
            'discipline (Cg + Pl.run_eq_spec). Not modelled in Lean: the producers of the Allow header the preflight rule reads (auto-OPTIONS responder - C02 - and StaticRoute; they are exercised by the '
-           'full-stack oracle only); constructor arguments outside the documented types (non-string items, unhashable items); the flag theorem Cg.response_call_of_member assumes that no process_response '
+           'full-stack oracle only); hooks and error handlers (in the C03 model every raise that a registered handler takes is the one action "raise"; that HTTPStatus of any status, HTTPError and handled exceptions all are '
+           'such raises is tied by the wiring correspondence and judged by the full-stack oracle); constructor arguments outside the documented types (non-string items, unhashable items); the flag theorem Cg.response_call_of_member assumes that no process_response '
            'of a later-registered component raised (otherwise req_succeeded is False by then, as Pl.withFlags_flag states).')
 JOBS = {'quick': 4, 'thorough': 16}
 
@@ -139,6 +157,28 @@ def enc_origins(v):
 def randcase(rnd, name):
     r = rnd.random()
     return name if r < 0.6 else name.lower() if r < 0.8 else name.upper() if r < 0.9 else ''.join(c.upper() if rnd.random() < 0.5 else c.lower() for c in name)
+
+
+# The DOCUMENTED signature (falcon API reference, "class falcon.CORSMiddleware(allow_origins='*', expose_headers=None,
+# allow_credentials=None)"; the class docstring lists the settings in this order).  It is written down here, not read from the
+# tree under test: a positional call means what the published signature says it means.
+DOCUMENTED_ORDER = ('allow_origins', 'expose_headers', 'allow_credentials')
+DOCUMENTED_DEFAULTS = {'allow_origins': '*', 'expose_headers': None, 'allow_credentials': None}
+
+
+def call_documented(rnd, cls, kw):
+    """Construct cls from the three settings in kw the way callers do: the first k (0..3) positionally in the documented order,
+    the others by keyword (shuffled), a setting equal to its documented default sometimes not passed at all. -> (object, text)"""
+    k = rnd.choice([0, 0, 1, 1, 2, 2, 3, 3])
+    pos = [kw[n] for n in DOCUMENTED_ORDER[:k]]
+    rest = [n for n in DOCUMENTED_ORDER[k:]
+            if not ((kw[n] is None or isinstance(kw[n], str)) and kw[n] == DOCUMENTED_DEFAULTS[n] and rnd.random() < 0.5)]
+    rnd.shuffle(rest)
+    text = f'{k} positional' + (', keywords ' + ','.join(rest) if rest else '')
+    try:
+        return cls(*pos, **{n: kw[n] for n in rest}), text
+    except Exception as e:              # every configuration generated here is legal: a refusal is reported by the caller
+        return None, text + f' -> raised {type(e).__name__}: {e}'
 
 
 def gen_config(rnd):
@@ -313,24 +353,134 @@ def named_by(kind, val, p):
     return any(x == p for x in val)
 
 
+def _probe_rules(ak, aitems, ek, eitems, ck, citems, p_, acao, acac, aceh):
+    """the statement for one probe Origin p_ against the INTENDED settings (documented reading of the call)"""
+    allowed = named_by(ak, aitems, p_)
+    cred = allowed and named_by(ck, citems, p_)
+    why = None
+    if not allowed:
+        if (acao, acac, aceh) != (None, None, None):
+            why = f'Origin {p_!r} is not named by allow_origins but got ACAO={acao!r} ACAC={acac!r} ACEH={aceh!r}'
+    elif cred:
+        if acac != 'true' or acao != p_:
+            why = f'Origin {p_!r} is configured for credentials but got ACAO={acao!r} ACAC={acac!r}'
+    else:
+        if acac is not None:
+            why = f'Origin {p_!r} is not named by allow_credentials but got Access-Control-Allow-Credentials={acac!r}'
+        elif acao != ('*' if (ak == 'str' and aitems == '*') else p_):
+            why = f'allowed Origin {p_!r} got Access-Control-Allow-Origin={acao!r}'
+    if why is None and allowed:
+        want = None if ek == 'none' else eitems if ek == 'str' else ', '.join(eitems)
+        if (aceh or None) != (want or None):
+            why = f'Access-Control-Expose-Headers={aceh!r}, configured {want!r}'
+    return why, allowed, cred
+
+
+HOWS = ['direct'] * 10 + ['App(middleware=[mw])', 'App(middleware=mw)', 'App(middleware=(mw,))', 'add_middleware(mw)', 'add_middleware([mw])',
+                          'App(middleware=[other, mw])']
+
+
 def _ctor(ctx):
     import asyncio
     import falcon
     import falcon.asgi
     import falcon.testing as ft
     rnd = ctx.rng
-    sess = ctx.session('CORSMiddleware.__init__ (normalised attributes / constructor errors, every argument shape) = Cg.normalise', 'crdriver')
+    sess = ctx.session('CORSMiddleware(*positional, **keyword) (argument binding, normalised attributes / constructor errors, every argument shape) = Cg.construct (Cg.bindArgs, Cg.normalise)', 'crdriver')
     loop = asyncio.new_event_loop()
+
+    class ThingW:
+        def on_get(self, req, resp):
+            resp.text = 'thing'
+
+    class ThingA:
+        async def on_get(self, req, resp):
+            resp.text = 'thing'
+
+    class OtherW:
+        def process_request(self, req, resp):
+            pass
+
+    class OtherA:
+        async def process_request(self, req, resp):
+            pass
+
+    def mkapp(asgi, how, mw):
+        AppT, Thing, Other = (falcon.asgi.App, ThingA, OtherA) if asgi else (falcon.App, ThingW, OtherW)
+        if how == 'App(cors_enable=True)':
+            app = AppT(cors_enable=True)
+        elif how == 'App(middleware=[mw])':
+            app = AppT(middleware=[mw])
+        elif how == 'App(middleware=mw)':
+            app = AppT(middleware=mw)
+        elif how == 'App(middleware=(mw,))':
+            app = AppT(middleware=(mw,))
+        elif how == 'App(middleware=[other, mw])':
+            app = AppT(middleware=[Other(), mw], independent_middleware=rnd.random() < 0.5)
+        elif how == 'add_middleware(mw)':
+            app = AppT()
+            app.add_middleware(mw)
+        else:
+            app = AppT(middleware=[Other()])
+            app.add_middleware([mw])
+        app.add_route('/x', Thing())
+        return app
+
     try:
         for ci in range(ctx.n(6000, 40000)):
-            ak, aobj, aitems, adesc = gen_ctor_arg(rnd, CT_UNIVERSE, True, 0.03, True)
-            ek, eobj, eitems, edesc = gen_ctor_arg(rnd, EX_UNIVERSE, True, 0.3, False)
-            ck, cobj, citems, cdesc = gen_ctor_arg(rnd, CT_UNIVERSE, True, 0.2, True)
-            case = {'level': 'constructor', 'allow_origins': adesc, 'expose_headers': edesc, 'allow_credentials': cdesc}
+            # settings legal for several parameters (the wildcard, origins as exposed-header names and the other way round), so that
+            # a setting that lands in the wrong parameter is visible
+            ak, aobj, aitems, adesc = gen_ctor_arg(rnd, CT_UNIVERSE if rnd.random() < 0.9 else EX_UNIVERSE, True, 0.03, True)
+            ek, eobj, eitems, edesc = gen_ctor_arg(rnd, EX_UNIVERSE if rnd.random() < 0.6 else CT_UNIVERSE, True, 0.3, True)
+            ck, cobj, citems, cdesc = gen_ctor_arg(rnd, CT_UNIVERSE if rnd.random() < 0.85 else EX_UNIVERSE, True, 0.2, True)
+            vals = {'allow_origins': (ak, aobj, aitems, adesc), 'expose_headers': (ek, eobj, eitems, edesc), 'allow_credentials': (ck, cobj, citems, cdesc)}
+            # ---- the call: k settings positionally (documented order), the others by keyword or - when that is what the documented
+            #      default says anyway - left out; App(cors_enable=True) is the call without arguments
+            how = rnd.choice(HOWS)
+            r = rnd.random()
+            if r < 0.04:
+                how, k, passed = 'App(cors_enable=True)', 0, []
+            elif r < 0.07:
+                k, passed = 0, []                                                  # CORSMiddleware()
+            else:
+                k = rnd.choice([0, 0, 1, 1, 2, 2, 2, 3, 3])
+                passed = [n for n in DOCUMENTED_ORDER[k:] if rnd.random() < 0.7]
+            for n in DOCUMENTED_ORDER[k:]:
+                if n not in passed:                                                # not passed: the documented default is meant
+                    d = DOCUMENTED_DEFAULTS[n]
+                    vals[n] = ('none', None, None, None) if d is None else ('str', d, d, d)
+            bad_call = None
+            if how != 'App(cors_enable=True)' and rnd.random() < 0.02:
+                bad_call = 'fourth positional argument' if (k == 3 and rnd.random() < 0.5) else 'parameter bound twice' if k else None
+            (ak, aobj, aitems, adesc), (ek, eobj, eitems, edesc), (ck, cobj, citems, cdesc) = (vals[n] for n in DOCUMENTED_ORDER)
+            pos = [vals[n][1] for n in DOCUMENTED_ORDER[:k]]
+            pos_enc = [enc_arg(vals[n][0], vals[n][2]) for n in DOCUMENTED_ORDER[:k]]
+            kws = list(passed)
+            rnd.shuffle(kws)
+            kw = {n: vals[n][1] for n in kws}
+            kw_enc = {n: enc_arg(vals[n][0], vals[n][2]) for n in kws}
+            if bad_call == 'fourth positional argument':
+                pos.append(None)
+                pos_enc.append('~')
+            elif bad_call == 'parameter bound twice':
+                n = rnd.choice(DOCUMENTED_ORDER[:k])
+                kw[n] = None
+                kw_enc[n] = '~'
+            case = {'level': 'constructor', 'call': {'how': how, 'positional': [vals[n][3] for n in DOCUMENTED_ORDER[:k]] + (['None'] if bad_call == 'fourth positional argument' else []),
+                                                       'keyword': {n: (vals[n][3] if n in kws else None) for n in kw}},
+                    'documented_meaning': {'allow_origins': adesc, 'expose_headers': edesc, 'allow_credentials': cdesc}}
             sess.case(case)
             mw = None
+            asgi = rnd.random() < 0.5
+            app = None
             try:
-                mw = falcon.CORSMiddleware(allow_origins=aobj, expose_headers=eobj, allow_credentials=cobj)
+                if how == 'App(cors_enable=True)':
+                    app = mkapp(asgi, how, None)
+                    mw = next(m for m in app._unprepared_middleware if isinstance(m, falcon.CORSMiddleware))
+                else:
+                    mw = falcon.CORSMiddleware(*pos, **kw)
+                    if how != 'direct':
+                        app = mkapp(asgi, how, mw)
                 got = f'cfg ao={enc_set_attr(mw.allow_origins)} ac={enc_set_attr(mw.allow_credentials)} ex={S(mw.expose_headers)}'
                 outcome = 'accepted'
             except ValueError as e:
@@ -338,62 +488,59 @@ def _ctor(ctx):
                 outcome = 'wildcard-origins' if 'allow_origins' in m else 'wildcard-credentials' if 'allow_credentials' in m else 'ValueError'
                 got = 'err ' + outcome
             except TypeError:
-                outcome = 'origins-not-iterable' if ak == 'none' else 'TypeError'
+                outcome = 'origins-not-iterable' if (ak == 'none' and not bad_call) else 'TypeError'
                 got = 'err ' + outcome
             case['constructor_outcome'] = outcome
-            sess.op(f'norm ao={enc_arg(ak, aitems)} ex={enc_arg(ek, eitems)} ac={enc_arg(ck, citems)}', got)
+            sess.op(f"call pos={'/'.join(pos_enc) or '-'} kao={kw_enc.get('allow_origins', '!')} kex={kw_enc.get('expose_headers', '!')} kac={kw_enc.get('allow_credentials', '!')}", got)
             ctx.count('ctor_' + outcome)
+            ctx.count(f'ctor_call_{"malformed" if bad_call else str(k) + "_positional"}')
+            ctx.count(f'ctor_how_{how}')
             ctx.count(f'ctor_shapes_ao={ak if ak != "iter" else next(iter(adesc))}')
             star_inside = (ak == 'iter' and '*' in aitems) or (ck == 'iter' and '*' in citems)
+            if bad_call:
+                ctx.oracle('constructor: a call that does not fit the documented signature (4 positional settings / a setting passed twice) is a TypeError',
+                           outcome == 'TypeError', None if outcome == 'TypeError' else f'{bad_call}: constructor outcome {outcome}', case)
+                ctx.seen(('ctor-bad', bad_call, k, str(case['call'])), True)
+                continue
             # ---- statement, constructor part: the wildcard is a configuration only as a bare string
             if ak != 'none':
                 ctx.oracle('constructor: "*" inside an allow_origins / allow_credentials iterable is refused (documented ValueError); every other configuration of the documented types is accepted',
                            (outcome != 'accepted') == star_inside,
                            None if (outcome != 'accepted') == star_inside else f'"*" inside an iterable: {star_inside}, constructor outcome: {outcome}', case)
             if mw is not None and not star_inside:
-                # ---- statement, policy part, from the ARGUMENTS: probe the constructed object with look-alike origins
-                base = [x for x in ([aitems] if ak == 'str' else aitems or []) + ([citems] if ck == 'str' else citems or []) if x != '*']
+                # ---- statement, policy part, from the ARGUMENTS as the documented signature reads them: probe with look-alike origins
+                base = [x for x in ([aitems] if ak == 'str' else aitems or []) + ([citems] if ck == 'str' else citems or [])
+                        + ([eitems] if ek == 'str' else eitems or []) if x != '*']
                 probes = set(base)
                 for b in base:
                     probes.update([b[:-1], b[1:], b + '.evil', b + '/', b.upper(), b.lower(), b[:len(b) // 2]])
                 probes.update(['http://zzz', 'http://a', 'a'])
                 probes.discard('*')
-                for p_ in rnd.sample(sorted(probes), min(len(probes), 6)):
-                    asgi = rnd.random() < 0.5
-                    if asgi:
-                        async def receive():
-                            return {'type': 'http.disconnect'}
-                        req = falcon.asgi.Request(ft.create_scope(method='GET', path='/x', headers={'Origin': p_}), receive)
-                        resp = falcon.asgi.Response()
-                        loop.run_until_complete(mw.process_response_async(req, resp, None, True))
+                for p_ in rnd.sample(sorted(probes), min(len(probes), 6 if app is None else 3)):
+                    if app is not None:
+                        if not p_.isascii() or p_ != p_.strip():
+                            continue
+                        _, hd, _ = _http_call(asgi, loop, app, 'GET', '/x', {'Origin': p_})
+                        acao, acac, aceh = (hd.get(n) for n in ('access-control-allow-origin', 'access-control-allow-credentials', 'access-control-expose-headers'))
                     else:
-                        req = falcon.Request(ft.create_environ(method='GET', path='/x', headers={'Origin': p_}))
-                        resp = falcon.Response()
-                        mw.process_response(req, resp, None, True)
-                    acao, acac, aceh = (resp.get_header(n) for n in ('Access-Control-Allow-Origin', 'Access-Control-Allow-Credentials', 'Access-Control-Expose-Headers'))
-                    allowed = named_by(ak, aitems, p_)
-                    cred = allowed and named_by(ck, citems, p_)
-                    why = None
-                    if not allowed:
-                        if (acao, acac, aceh) != (None, None, None):
-                            why = f'Origin {p_!r} is not named by allow_origins but got ACAO={acao!r} ACAC={acac!r} ACEH={aceh!r}'
-                    elif cred:
-                        if acac != 'true' or acao != p_:
-                            why = f'Origin {p_!r} is configured for credentials but got ACAO={acao!r} ACAC={acac!r}'
-                    else:
-                        if acac is not None:
-                            why = f'Origin {p_!r} is not named by allow_credentials but got Access-Control-Allow-Credentials={acac!r}'
-                        elif acao != ('*' if (ak == 'str' and aitems == '*') else p_):
-                            why = f'allowed Origin {p_!r} got Access-Control-Allow-Origin={acao!r}'
-                    if why is None and allowed:
-                        want = None if ek == 'none' else eitems if ek == 'str' else ', '.join(eitems)
-                        if (aceh or None) != (want or None):
-                            why = f'Access-Control-Expose-Headers={aceh!r}, configured {want!r}'
-                    pc = dict(case, probe_origin=p_, stack='asgi' if asgi else 'wsgi')
-                    ctx.oracle('constructed middleware: an Origin is granted iff it is literally named by allow_origins (whole string, case-sensitive), credentials iff also named by allow_credentials, expose_headers joined with ", "',
+                        asgi = rnd.random() < 0.5
+                        if asgi:
+                            async def receive():
+                                return {'type': 'http.disconnect'}
+                            req = falcon.asgi.Request(ft.create_scope(method='GET', path='/x', headers={'Origin': p_}), receive)
+                            resp = falcon.asgi.Response()
+                            loop.run_until_complete(mw.process_response_async(req, resp, None, True))
+                        else:
+                            req = falcon.Request(ft.create_environ(method='GET', path='/x', headers={'Origin': p_}))
+                            resp = falcon.Response()
+                            mw.process_response(req, resp, None, True)
+                        acao, acac, aceh = (resp.get_header(n) for n in ('Access-Control-Allow-Origin', 'Access-Control-Allow-Credentials', 'Access-Control-Expose-Headers'))
+                    why, allowed, cred = _probe_rules(ak, aitems, ek, eitems, ck, citems, p_, acao, acac, aceh)
+                    pc = dict(case, probe_origin=p_, stack='asgi' if asgi else 'wsgi', probed='GET /x through the app' if app is not None else 'process_response')
+                    ctx.oracle('constructed middleware (any calling convention, read by the documented signature; directly and inside an app): an Origin is granted iff it is literally named by allow_origins (whole string, case-sensitive), credentials iff also named by allow_credentials, expose_headers joined with ", "',
                                why is None, why, pc)
                     ctx.count('ctor_probe_' + ('credentialed' if cred else 'allowed' if allowed else 'refused'))
-            ctx.seen(('ctor', ak, str(aitems), ek, str(eitems), ck, str(citems), str(adesc), str(cdesc)), outcome == 'accepted' or star_inside)
+            ctx.seen(('ctor', how, k, tuple(kws), ak, str(aitems), ek, str(eitems), ck, str(citems), str(adesc), str(cdesc)), outcome == 'accepted' or star_inside)
     finally:
         loop.close()
     sess.finish()
@@ -460,8 +607,9 @@ def _wire(ctx, asgi):
     root = tempfile.mkdtemp(prefix='c20wire_')
     with open(os.path.join(root, 'f.txt'), 'w') as f:
         f.write('static file')
-    PLAN = {'fail': None, 'resp': 'ret'}
+    PLAN = {'fail': None, 'rfail': None, 'pfail': None, 'how': 'raise', 'resp': 'ret'}
     LOG = []
+    THROWS = ['raise', 'raise', 'error+allow', 'exc', 'status200', 'status200+allow', 'status204+allow', 'status503', 'status503+allow', 'status401+allow']
     BUILTIN = [False]       # the app under test was built with cors_enable: the only CORSMiddleware in it is the framework's own
 
     class LogMixin:
@@ -482,10 +630,25 @@ def _wire(ctx, asgi):
             LOG.append(['u', resource is not None, req_succeeded])
             super().process_response(req, resp, resource, req_succeeded)
 
+    class WireBoom(Exception):
+        pass
+
+    def throw(how, where):
+        """every way a stage can raise: the flag handed to process_response must be False after any of them"""
+        LOG.append(['!', where, how])
+        if how == 'raise':
+            raise falcon.HTTPBadRequest()
+        if how == 'error+allow':
+            raise falcon.HTTPMethodNotAllowed(['GET', 'PUT'])
+        if how == 'exc':
+            raise WireBoom()
+        code = int(how[6:9])                                      # 'status200' / 'status204+allow' / 'status503+allow' ...
+        raise falcon.HTTPStatus(code, headers={'Allow': 'GET, POST'} if how.endswith('+allow') else None)
+
     def behave(req, resp):
         resp.set_header('Allow', 'GET')
-        if PLAN['resp'] == 'raise':
-            raise falcon.HTTPBadRequest()
+        if PLAN['resp'] != 'ret':
+            throw(PLAN['resp'], 'responder')
         resp.text = 'ok'
 
     if asgi:
@@ -506,10 +669,19 @@ def _wire(ctx, asgi):
 
             async def process_request(self, req, resp):
                 if PLAN['fail'] == self.n:
-                    raise falcon.HTTPForbidden()
+                    throw(PLAN['how'], f'o{self.n}.process_request')
+
+            async def process_resource(self, req, resp, resource, params):
+                if PLAN['rfail'] == self.n:
+                    throw(PLAN['how'], f'o{self.n}.process_resource')
 
             async def process_response(self, req, resp, resource, ok):
                 LOG.append([f'o{self.n}', resource is not None, ok])
+                if PLAN['pfail'] == self.n:
+                    throw(PLAN['how'], f'o{self.n}.process_response')
+
+        async def on_wireboom(req, resp, ex, params, **kw):
+            resp.status = falcon.HTTP_500
         AppT = falcon.asgi.App
     else:
         class LogResp(LogMixin, falcon.Response):
@@ -529,10 +701,19 @@ def _wire(ctx, asgi):
 
             def process_request(self, req, resp):
                 if PLAN['fail'] == self.n:
-                    raise falcon.HTTPForbidden()
+                    throw(PLAN['how'], f'o{self.n}.process_request')
+
+            def process_resource(self, req, resp, resource, params):
+                if PLAN['rfail'] == self.n:
+                    throw(PLAN['how'], f'o{self.n}.process_resource')
 
             def process_response(self, req, resp, resource, ok):
                 LOG.append([f'o{self.n}', resource is not None, ok])
+                if PLAN['pfail'] == self.n:
+                    throw(PLAN['how'], f'o{self.n}.process_response')
+
+        def on_wireboom(req, resp, ex, params):
+            resp.status = falcon.HTTP_500
         AppT = falcon.App
 
     counter = [0]
@@ -558,7 +739,7 @@ def _wire(ctx, asgi):
         return UserCORS() if k == 'u' else Other(int(k[1:]))
 
     def render(log, pf):
-        return ','.join(f'C:?:{(1 if e[2] else 0) if pf else "?"}' if e[0] == 'C' else f'{e[0]}:{1 if e[1] else 0}:{1 if e[2] else 0}' for e in log) or '-'
+        return ','.join(f'C:?:{(1 if e[2] else 0) if pf else "?"}' if e[0] == 'C' else f'{e[0]}:{1 if e[1] else 0}:{1 if e[2] else 0}' for e in log if e[0] != '!') or '-'
 
     try:
         for ai in range(ctx.n(1200, 8000)):
@@ -569,11 +750,23 @@ def _wire(ctx, asgi):
             a_enc, a_desc, a_make = gen_mwarg(p_user)
             adds = [gen_mwarg(rnd.choice([0.0, 0.3])) for _ in range(rnd.choice([0, 0, 1, 2, 3]))]
             kind = rnd.choice(['route', 'route', 'nomethod', 'sink', 'static', 'nothing'])
-            resp_act = rnd.choice(['ret', 'ret', 'raise'])
+            resp_act = rnd.choice(['ret', 'ret', 'ret'] + THROWS)
             pf = kind != 'nomethod' and rnd.random() < 0.6
-            if kind == 'static' and pf:
-                resp_act = 'ret'            # the static route answers OPTIONS (Allow: GET) without looking at the file, so it cannot fail
-            fail = rnd.choice([None, None] + list(range(1, counter[0] + 1))) if counter[0] else None
+            if kind == 'static' and (pf or resp_act != 'ret'):
+                resp_act = 'ret' if pf else 'raise'   # the static route answers OPTIONS (Allow: GET) without looking at the file, so it cannot fail; otherwise a missing file is a 404
+            # which stage of which other component raises (process_request / process_resource / process_response), and what
+            fail = rfail = pfail = None
+            how = rnd.choice(THROWS)
+            if counter[0]:
+                for _ in range(rnd.choice([0, 0, 1, 1, 1, 2])):
+                    st_ = rnd.choice(['req', 'rsrc', 'rsrc', 'resp'])
+                    n_ = rnd.randint(1, counter[0])
+                    if st_ == 'req':
+                        fail = n_
+                    elif st_ == 'rsrc':
+                        rfail = n_
+                    else:
+                        pfail = n_
             method = 'OPTIONS' if pf else 'DELETE' if kind == 'nomethod' else 'GET'
             path = {'route': '/r', 'nomethod': '/r', 'sink': '/sink/x', 'static': '/static/f.txt' if resp_act == 'ret' else '/static/missing', 'nothing': '/none'}[kind]
             hdrs = {'Origin': 'http://a'}
@@ -581,9 +774,12 @@ def _wire(ctx, asgi):
                 hdrs['Access-Control-Request-Method'] = 'GET'
             case = {'level': 'wiring', 'stack': stack, 'cors_enable': ce, 'independent_middleware': indep, 'middleware': a_desc,
                     'add_middleware_calls': [d for _, d, _ in adds], 'request': {'method': method, 'path': path, 'headers': hdrs},
-                    'target': kind, 'responder': resp_act, 'process_request_raising_in': None if fail is None else f'o{fail}'}
+                    'target': kind, 'responder': resp_act, 'process_request_raising_in': None if fail is None else f'o{fail}',
+                    'process_resource_raising_in': None if rfail is None else f'o{rfail}', 'process_response_raising_in': None if pfail is None else f'o{pfail}',
+                    'middleware_raises': how}
             line = (f"stack ce={1 if ce else 0} indep={1 if indep else 0} arg={a_enc} adds={'/'.join(e for e, _, _ in adds) or '-'} "
-                    f"target={'sink' if kind == 'static' else kind} resp={resp_act} fail={'-' if fail is None else fail} pf={1 if pf else 0}")
+                    f"target={'sink' if kind == 'static' else kind} resp={'ret' if resp_act == 'ret' else 'raise'} fail={'-' if fail is None else fail} pf={1 if pf else 0} "
+                    f"rsrc=1 rfail={'-' if rfail is None else rfail} pfail={'-' if pfail is None else pfail}")
             sess.case(case)
             user_in_arg = 'u' in a_enc
             why = None
@@ -607,19 +803,21 @@ def _wire(ctx, asgi):
                 app.add_route('/r', Res())
                 app.add_sink(sink, '/sink')
                 app.add_static_route('/static', root)
+                app.add_error_handler(WireBoom, on_wireboom)
                 BUILTIN[0] = ce
                 try:
                     # request 1, nothing fails: the response stack bottom-up, i.e. the middleware stack in reverse
-                    PLAN.update(fail=None, resp='ret')
+                    PLAN.update(fail=None, rfail=None, pfail=None, how=how, resp='ret')
                     del LOG[:]
                     _http_call(asgi, loop, app, 'OPTIONS', '/r', {'Origin': 'http://a', 'Access-Control-Request-Method': 'GET'})
                     stack_seen = [e[0] for e in reversed(LOG)]
                     n_c1 = sum(1 for e in LOG if e[0] == 'C')
                     # request 2: the planned one
-                    PLAN.update(fail=fail, resp=resp_act)
+                    PLAN.update(fail=fail, rfail=rfail, pfail=pfail, resp=resp_act)
                     del LOG[:]
                     st2, hd2, _ = _http_call(asgi, loop, app, method, path, hdrs)
                     calls = [list(e) for e in LOG]
+                    case['raised'] = [f'{e[1]}: {e[2]}' for e in calls if e[0] == '!']
                     got = f"init=ok adds={''.join(map(str, oks)) or '-'} stack={','.join(stack_seen) or '-'} calls={render(calls, pf)}"
                     case['observed'] = {'stack': stack_seen, 'process_response_calls': calls, 'status': st2,
                                         'access-control-allow-origin': hd2.get('access-control-allow-origin')}
@@ -631,10 +829,17 @@ def _wire(ctx, asgi):
                         before = [int(k[1:]) for k in ([a_enc[1:]] if a_enc[0] == 's' else a_enc[1:].split(',')) if k.startswith('o')]
                         may_skip = not indep and fail in before
                         expect = n_c2 if (may_skip and n_c2 == 0) else 1
+                        # the exchange succeeded (as far as the CORS component can know) iff nothing raised before its process_response ran:
+                        # no planned stage (recorded by the harness at the raise) and not the framework's own 404 / 405 responder
+                        ic = next((i for i, e in enumerate(calls) if e[0] == 'C'), None)
+                        raised_before = [e for e in calls[:ic if ic is not None else 0] if e[0] == '!']
+                        fw_raises = kind in ('nothing', 'nomethod') or (kind == 'static' and resp_act != 'ret')
+                        succeeded = not raised_before and not fw_raises
                         if n_c1 != 1 or n_c2 != expect:
                             why = f'cors_enable app: the CORS policy ran {n_c1} time(s) in a clean request and {n_c2} time(s) in the planned one, expected exactly 1' + (' (or 0: dependent mode behind a rejecting process_request)' if may_skip else '')
-                        elif expect and pf and calls and [e for e in calls if e[0] == 'C'][0][2] != (st2 < 400):
-                            why = f'cors_enable app: preflight patching ran = {[e for e in calls if e[0] == "C"][0][2]} but the exchange ended with status {st2}'
+                        elif expect and pf and ic is not None and calls[ic][2] != succeeded:
+                            why = (f'cors_enable app: preflight patching ran = {calls[ic][2]} but the OPTIONS exchange ' +
+                                   ('succeeded (nothing raised)' if succeeded else 'did not succeed: ' + ('; '.join(f'{e[1]} raised {e[2]}' for e in raised_before) or 'the framework answered 404 / 405')) + f' (final status {st2})')
                 except Hang:
                     got = 'hang'
                     why = why or 'request did not return (hang)'
@@ -647,7 +852,10 @@ def _wire(ctx, asgi):
             ctx.oracle('cors_enable wiring: a CORSMiddleware next to cors_enable is refused (constructor and add_middleware), otherwise exactly one CORS policy runs per request - once, with req_succeeded = the exchange succeeded - for routed / sink / static / unrouted / failed requests (dependent mode may skip it behind a rejecting process_request)',
                        why is None, why, case)
             ctx.seen(('wire', stack, line), app is not None or (ce and user_in_arg))
-            ctx.count(f'wire_{stack}_' + ('refused' if app is None else f'ce={int(ce)}_{kind}_{resp_act if kind not in ("nomethod", "nothing") else "-"}'))
+            ctx.count(f'wire_{stack}_' + ('refused' if app is None else f'ce={int(ce)}_{kind}_{("ret" if resp_act == "ret" else "raise") if kind not in ("nomethod", "nothing") else "-"}'))
+            if app is not None:
+                for e in case.get('raised', []):
+                    ctx.count('wire_raised_' + e.split('.')[-1].replace(': ', '_by_'))
     finally:
         if loop is not None:
             loop.close()
@@ -672,7 +880,10 @@ def _unit(ctx, asgi):
         for ci in range(ctx.n(40000, 200000)):
             kw, norm, desc = gen_config(rnd)
             ao, ac, ex = norm
-            mw = falcon.CORSMiddleware(**kw)
+            mw, desc['constructed'] = call_documented(rnd, falcon.CORSMiddleware, kw)
+            if mw is None:
+                ctx.oracle('a documented constructor call with legal settings is accepted', False, desc['constructed'], {'level': 'unit', 'stack': stack, 'config': desc})
+                continue
             origin = gen_origin(rnd)
             method = rnd.choice(['GET', 'POST', 'OPTIONS', 'OPTIONS', 'OPTIONS', 'HEAD', 'DELETE'])
             acrm = rnd.choice([None, 'GET', 'GET', 'PUT', ''])
@@ -810,7 +1021,45 @@ def _apps(ctx, asgi):
             REC.append((pre, req_succeeded, snapshot(resp)))
 
     class Boom(Exception):
-        """a non-HTTP error of a responder, turned into a 500 by an application error handler"""
+        """a non-HTTP error, taken by an application error handler: it answers 500, or sets Allow as well, or raises HTTPStatus itself"""
+        def __init__(self, mode):
+            super().__init__('stage failed')
+            self.mode = mode
+
+    RAISED = []
+
+    def end(stage, resp):
+        """How this stage of the exchange ends (PLAN['end'][stage]): by returning (possibly after choosing a status), or by raising
+        HTTPStatus (any status, with or without an Allow header) / HTTPError (with or without Allow) / a plain exception whose
+        handler answers 500, sets Allow, or raises HTTPStatus.  Every raise is recorded here, by the harness, at the raise."""
+        e = PLAN.get('end', {}).get(stage)
+        if e is None:
+            return
+        if e.get('set_allow') is not None:
+            resp.set_header('Allow', e['set_allow'])
+        k = e['kind']
+        if k == 'ret_status':
+            resp.status = e['code']
+            return
+        RAISED.append((stage, resp.status_code))
+        hd = {'Allow': e['allow']} if e.get('allow') is not None else ({'Retry-After': '30'} if e.get('code') == 503 else None)
+        if k == 'http400':
+            raise falcon.HTTPBadRequest()
+        if k == 'http405':
+            raise falcon.HTTPMethodNotAllowed(['GET', 'PUT'])
+        if k == 'httperror':
+            raise falcon.HTTPError(e['code'], headers=hd)
+        if k == 'status':
+            raise falcon.HTTPStatus(e['code'], headers=hd)
+        raise Boom(k)                                            # 'exc' / 'exc_allow' / 'exc_status'
+
+    def boom_handler(resp, ex):
+        if ex.mode == 'exc_status':
+            raise falcon.HTTPStatus(204, headers={'Allow': 'GET, POST'})
+        resp.status = falcon.HTTP_500
+        resp.text = 'boom'
+        if ex.mode == 'exc_allow':
+            resp.set_header('Allow', 'GET, POST')
 
     def behave(req, resp, kind):
         RAN.append(kind)
@@ -819,14 +1068,8 @@ def _apps(ctx, asgi):
         al = PLAN.get('allow')
         if al is not None and (kind != 'res' or req.method == 'OPTIONS'):
             resp.set_header('Allow', al)
-        f = PLAN.get('fail')
-        if f == 'http400':
-            raise falcon.HTTPBadRequest()
-        if f == 'http405':
-            raise falcon.HTTPMethodNotAllowed(['GET', 'PUT'])
-        if f == 'exc':
-            raise Boom('responder failed')
         resp.text = 'body of ' + kind
+        end('responder', resp)
 
     if asgi:
         class Res:
@@ -844,16 +1087,36 @@ def _apps(ctx, asgi):
         async def sink(req, resp, **kw):
             behave(req, resp, 'sink')
 
+        async def bhook(req, resp, resource, params):
+            end('before', resp)
+
+        async def ahook(req, resp, resource):
+            end('after', resp)
+
+        class ResHook:
+            @falcon.before(bhook)
+            @falcon.after(ahook)
+            async def on_get(self, req, resp):
+                behave(req, resp, 'res')
+
+            @falcon.before(bhook)
+            @falcon.after(ahook)
+            async def on_options(self, req, resp):
+                behave(req, resp, 'res')
+
         class Other:
             def __init__(self, tag):
                 self.tag = tag
 
             async def process_request(self, req, resp):
-                if PLAN.get('mw_fail') == self.tag:
-                    raise falcon.HTTPForbidden()
+                end('req:' + self.tag, resp)
+
+            async def process_resource(self, req, resp, resource, params):
+                end('rsrc:' + self.tag, resp)
 
             async def process_response(self, req, resp, resource, ok):
                 resp.set_header('X-Other-' + self.tag, '1')
+                end('resp:' + self.tag, resp)
         AppT = falcon.asgi.App
     else:
         class Res:
@@ -871,32 +1134,51 @@ def _apps(ctx, asgi):
         def sink(req, resp, **kw):
             behave(req, resp, 'sink')
 
+        def bhook(req, resp, resource, params):
+            end('before', resp)
+
+        def ahook(req, resp, resource):
+            end('after', resp)
+
+        class ResHook:
+            @falcon.before(bhook)
+            @falcon.after(ahook)
+            def on_get(self, req, resp):
+                behave(req, resp, 'res')
+
+            @falcon.before(bhook)
+            @falcon.after(ahook)
+            def on_options(self, req, resp):
+                behave(req, resp, 'res')
+
         class Other:
             def __init__(self, tag):
                 self.tag = tag
 
             def process_request(self, req, resp):
-                if PLAN.get('mw_fail') == self.tag:
-                    raise falcon.HTTPForbidden()
+                end('req:' + self.tag, resp)
+
+            def process_resource(self, req, resp, resource, params):
+                end('rsrc:' + self.tag, resp)
 
             def process_response(self, req, resp, resource, ok):
                 resp.set_header('X-Other-' + self.tag, '1')
+                end('resp:' + self.tag, resp)
         AppT = falcon.App
 
     def build(mws, indep, cors_enable=False):
         app = AppT(middleware=mws, independent_middleware=indep, cors_enable=cors_enable)
         app.add_route('/r', Res())
         app.add_route('/ro', ResOpt())
+        app.add_route('/rh', ResHook())
         app.add_sink(sink, '/sink')
         app.add_static_route('/static', root)
         if asgi:
             async def on_boom(req, resp, ex, params, **kw):
-                resp.status = falcon.HTTP_500
-                resp.text = 'boom'
+                boom_handler(resp, ex)
         else:
             def on_boom(req, resp, ex, params):
-                resp.status = falcon.HTTP_500
-                resp.text = 'boom'
+                boom_handler(resp, ex)
         app.add_error_handler(Boom, on_boom)
         return app
 
@@ -940,6 +1222,40 @@ def _apps(ctx, asgi):
             hd[k] = (hd[k] + ', ' + v) if k in hd else v
         return start['status'], hd, b''.join(e.get('body', b'') for e in sent if e['type'] == 'http.response.body')
 
+    def gen_ending(stage):
+        """one way of ending a stage; a process_response that runs AFTER the CORS component ('resp:b': registered before it) must not
+        write the headers the oracle reads, everything else may carry / set an Allow header"""
+        late = stage == 'resp:b'
+        r = rnd.random()
+        if r < 0.40:
+            e = {'kind': 'status', 'code': rnd.choice([200, 200, 204, 503, 503, 401, 302]), 'allow': None if late else rnd.choice([None, 'GET, POST', 'GET, POST', 'GET'])}
+        elif r < 0.50:
+            e = {'kind': 'http400'}
+        elif r < 0.58:
+            e = {'kind': 'http400' if late else 'http405'}
+        elif r < 0.70:
+            e = {'kind': 'httperror', 'code': rnd.choice([503, 401, 429]), 'allow': None if late else rnd.choice([None, 'GET, POST'])}
+        elif r < 0.90 or late:
+            e = {'kind': 'exc' if late else rnd.choice(['exc', 'exc_allow', 'exc_status'])}
+        else:
+            e = {'kind': 'status', 'code': 204, 'allow': None}
+        if stage == 'responder' and rnd.random() < 0.15:
+            e = {'kind': 'ret_status', 'code': rnd.choice([200, 204, 503, 202])}
+        if not late and rnd.random() < 0.2:
+            e['set_allow'] = rnd.choice(['GET, POST', 'PUT'])       # the stage sets Allow on the response itself before it ends
+        return e
+
+    def gen_endings(tags):
+        r = rnd.random()
+        if r < 0.45:
+            return {}
+        stages = ['responder'] * 5 + ['before', 'before', 'after', 'after'] + [f'{ph}:{t}' for t in tags for ph in ('req', 'rsrc', 'rsrc', 'resp')]
+        out = {}
+        for _ in range(1 if r < 0.92 else 2):
+            st_ = rnd.choice(stages)
+            out[st_] = gen_ending(st_)
+        return out
+
     PRESETS = [{}, {}, {}, {}, {'Access-Control-Allow-Origin': 'http://preset'}, {'access-control-allow-origin': '*'},
                {'Access-Control-Allow-Credentials': 'true'}, {'Access-Control-Allow-Methods': 'PRESET'},
                {'Access-Control-Expose-Headers': 'X-P', 'Access-Control-Max-Age': '5'},
@@ -958,7 +1274,10 @@ def _apps(ctx, asgi):
                 twin = build(list(others), indep)
                 tags = ['b'] if others else []
             else:
-                cors = RecCORS(**kw)
+                cors, desc['constructed'] = call_documented(rnd, RecCORS, kw)
+                if cors is None:
+                    ctx.oracle('a documented constructor call with legal settings is accepted', False, desc['constructed'], {'level': 'app', 'stack': stack, 'config': desc})
+                    continue
                 tags = {'alone': [], 'after': ['b'], 'before': ['a'], 'between': ['b', 'a']}[arrangement]
                 pre_m = [Other('b')] if 'b' in tags else []
                 post_m = [Other('a')] if 'a' in tags else []
@@ -970,10 +1289,9 @@ def _apps(ctx, asgi):
                 method = rnd.choice(['GET', 'POST', 'OPTIONS', 'OPTIONS', 'OPTIONS', 'HEAD', 'DELETE'])
                 acrm = rnd.choice([None, 'GET', 'GET', 'PUT', ''])
                 acrh = rnd.choice([None, None, 'X-H', 'X-H, Content-Type', ''])
-                path = rnd.choice(['/r', '/r', '/ro', '/ro', '/sink/a', '/sink/b', '/static/f.txt', '/static/missing', '/none'])
+                path = rnd.choice(['/r', '/r', '/ro', '/ro', '/rh', '/rh', '/sink/a', '/sink/b', '/static/f.txt', '/static/missing', '/none'])
                 PLAN.clear()
-                PLAN.update({'preset': dict(rnd.choice(PRESETS)), 'fail': rnd.choice([None, None, None, None, 'http400', 'http405', 'exc']),
-                             'allow': rnd.choice([None, 'GET, PUT', 'GET', None]), 'mw_fail': rnd.choice([None] * 8 + tags)})
+                PLAN.update({'preset': dict(rnd.choice(PRESETS)), 'allow': rnd.choice([None, 'GET, PUT', 'GET', None]), 'end': gen_endings(tags)})
                 hdrs = {}
                 if origin is not None:
                     hdrs[randcase(rnd, 'Origin')] = origin
@@ -986,12 +1304,12 @@ def _apps(ctx, asgi):
                         'responder_plan': {k: v for k, v in PLAN.items()}}
                 why = None
                 try:
-                    del REC[:], RAN[:]
+                    del REC[:], RAN[:], RAISED[:]
                     T = call(twin, method, path, hdrs)
-                    twin_ran = list(RAN)
-                    del REC[:], RAN[:]
+                    twin_ran, twin_raised = list(RAN), list(RAISED)
+                    del REC[:], RAN[:], RAISED[:]
                     F = call(app, method, path, hdrs)
-                    rec = list(REC)
+                    rec, app_ran, app_raised = list(REC), list(RAN), list(RAISED)
                 except Hang:
                     why = 'request did not return (hang)'
                 except (asyncio.TimeoutError, TimeoutError):
@@ -1013,7 +1331,7 @@ def _apps(ctx, asgi):
                                   str({k: (Th.get(k), Fh.get(k)) for k in set(Th) | set(Fh) if Th.get(k) != Fh.get(k)} or {'status/body': (T[0], F[0])})
                     else:
                         # dependent mode: a middleware listed before the CORS one that rejects the request keeps it from running
-                        ran_cors = indep or PLAN['mw_fail'] != 'b'
+                        ran_cors = indep or 'req:b' not in [st_ for st_, _ in app_raised]
                         names.add('vary')     # (a policy may legitimately add Vary: Origin when it grants)
                         if F[0] != T[0] or F[2] != T[2] or {k: v for k, v in Fh.items() if k not in names} != {k: v for k, v in Th.items() if k not in names}:
                             why = 'status, body or non-CORS headers differ from the same app without the CORS middleware'
@@ -1021,15 +1339,38 @@ def _apps(ctx, asgi):
                             if Fh != Th:
                                 why = 'the CORS middleware was skipped (dependent mode) but CORS headers differ from the twin'
                         else:
-                            # the exchange succeeded iff nothing raised: planned failures, unrouted/405/missing file show as >= 400 on the twin
-                            succeeded = T[0] < 400 and PLAN['mw_fail'] is None and not (PLAN['fail'] and twin_ran)
+                            # The exchange the CORS component answers succeeded iff NOTHING RAISED before its process_response ran (HTTPStatus is
+                            # an exception like any other: "req_succeeded: True if no exceptions were raised while the framework processed and
+                            # routed the request").  Raises of harness stages are recorded at the raise; process_response methods run in reverse
+                            # registration order, so only 'resp:b' (registered before the CORS component) comes after it.  The framework's own
+                            # raises (404 unrouted / missing file, 405) show as a status >= 400 in an exchange where no harness responder ran.
+                            before_cors = [st_ for st_, _ in app_raised if st_ != 'resp:b']
+                            late = [c for st_, c in twin_raised if st_ == 'resp:b']
+                            status_then = late[0] if late else T[0]
+                            succeeded = not before_cors and (bool(app_ran) or status_then < 400)
+                            case['raised'] = [st_ for st_, _ in app_raised]
+                            case['exchange_succeeded'] = succeeded
                             pre = {k: Th.get(n.lower()) for k, n in NAMED}
                             post = {k: Fh.get(n.lower()) for k, n in NAMED}
                             why = _grant_rules(origin, ao, cred_ok, ex, method, acrm, acrh, succeeded, pre, post)
+                            if why is not None and app_raised:
+                                why += ' [raised during the exchange: ' + ', '.join(f'{st_} ({PLAN["end"][st_]["kind"]}{PLAN["end"][st_].get("code", "")})' for st_, _ in app_raised) + ']'
                     ctx.count(f'app_{stack}_' + ('no_origin' if origin is None else 'allowed' if allowed else 'disallowed'))
                     ctx.count(f'app_{stack}_arrangement_{arrangement}')
                     if allowed and method == 'OPTIONS' and acrm:
                         ctx.count(f'app_{stack}_preflight_' + ('failed_exchange' if T[0] >= 400 else 'approved' if 'access-control-allow-methods' in Fh else 'denied'))
+                        tgt = {'/r': 'auto-options', '/ro': 'on_options', '/rh': 'hooked-on_options', '/none': 'unrouted'}.get(path, path.split('/')[1])
+                        if not app_raised:
+                            e = PLAN['end'].get('responder') if app_ran else None
+                            ctx.count(f'app_preflight_{tgt}_ends_by_' + ('return' if e is None else 'return_with_chosen_status') + ('' if (app_ran or T[0] < 400) else '_of_the_framework_404'))
+                        for st_, _ in app_raised:
+                            e = PLAN['end'][st_]
+                            what = {'status': 'HTTPStatus', 'http400': 'HTTPError', 'http405': 'HTTPError', 'httperror': 'HTTPError'}.get(e['kind'], 'handled_exception')
+                            if what == 'HTTPStatus':
+                                what += '_2xx' if e['code'] < 300 else '_3xx' if e['code'] < 400 else '_4xx5xx'
+                            al = bool(e.get('allow') or e.get('set_allow') or e['kind'] in ('http405', 'exc_allow', 'exc_status'))
+                            ctx.count(f'app_preflight_raise_in_{st_.split(":")[0]}')
+                            ctx.count(f'app_preflight_raise_of_{what}' + ('_with_Allow' if al else ''))
                 ctx.oracle('final response: identical to the twin app without the middleware unless the Origin is allowed; grants, credentials, wildcard and preflight rules of the statement otherwise',
                            why is None, why, case)
                 ctx.seen(('app', stack, str(desc), arrangement, indep, method, path, str(sorted(hdrs.items())), str(sorted(PLAN.items(), key=str))), origin is not None)
@@ -1040,7 +1381,8 @@ def _apps(ctx, asgi):
     sess.finish()
 
 
-LEVEL_TEXT = ('Machine-checked proofs (Lean 4). (a) Cg.normalise, a transcription of CORSMiddleware.__init__: a single string is exactly the one-element iterable (membership is whole-string equality), the '
+LEVEL_TEXT = ('Machine-checked proofs (Lean 4). (a) Cg.construct = Cg.bindArgs (the binding of positional / keyword arguments to the signature (allow_origins, expose_headers, allow_credentials): every split configures the same middleware) '
+              'followed by Cg.normalise, a transcription of CORSMiddleware.__init__: a single string is exactly the one-element iterable (membership is whole-string equality), the '
               'outcome depends only on the SET of configured strings, "*" inside an iterable is refused, expose_headers is the ", "-join; the policy theorems are restated from the raw constructor arguments. '
               '(b) Cg.appInit / addMiddleware, a transcription of the cors_enable wiring: exactly one CORSMiddleware, last in the stack, under every sequence of add_middleware calls; a CORSMiddleware next to '
               'cors_enable is refused; inside the proved call discipline of App.__call__ its process_response runs exactly once (dependent mode: iff no earlier process_request raised) with the documented req_succeeded. '
